@@ -118,6 +118,15 @@ class Scenario:
                     def filename(self):
                         return _Shared.filename
 
+                    def token(self):
+                        # the leak must reach coordinates whether the parser
+                        # reads the lexer's file name when it builds a node or
+                        # the name stamped on the token when it was lexed
+                        tok = super().token()
+                        if tok is not None and hasattr(tok, "filename"):
+                            tok.filename = _Shared.filename
+                        return tok
+
                 return _canon_raw(_raw_parse(lambda: CParser(lexer=LeakyLexer), text, fn))
 
         elif kind == "gen":
